@@ -24,7 +24,7 @@ ASSUMPTIONS = ["CPython semantics of bytes.split/strip/startswith/int and of war
                "the fallback estimate's float arithmetic is exact only below 2^53*1024 bytes; generated watermark-path cases stay below 2^50 kB",
                "the page size is the module constant psutil._pslinux.PAGESIZE (patched per case to 4096/16384/65536)"]
 EXHAUSTIVE = {"quick": "all 512 subsets of 9 optional meminfo field groups; all 96 combinations of MemAvailable mode x {Active(file),Inactive(file),SReclaimable,zoneinfo} subsets",
-              "thorough": "the same 512 + 96 enumerations, each under 6 magnitude classes"}
+              "thorough": "the same 512 + 96 enumerations, each repeated 6 times under rotating magnitude classes"}
 SHARD = 120
 
 FIELD_ORDER = ["total", "available", "percent", "used", "free", "active", "inactive", "buffers", "cached", "shared", "slab"]
